@@ -1024,10 +1024,7 @@ pub fn run_adp_history(h: &AdpHistory, prop: &str, known: &Known) -> Result<AFac
 
 fn run_inner(h: &AdpHistory, prop: &str, known: &Known) -> Result<AFacts, Div> {
     let n = h.chain.len();
-    let mut ob: Option<ObservableVector<T>> = Some(ObservableVector::with_capacity(h.capacity));
-    if !h.init.is_empty() {
-        ob.as_mut().unwrap().append(h.init.iter().map(|v| Tracked::new(*v)).collect());
-    }
+    let mut ob: Option<ObservableVector<T>> = Some(make_vector(h.capacity, &h.init));
     let log: Log = Rc::new(RefCell::new(Vec::new()));
     let sub = ob.as_ref().unwrap().subscribe();
     let (mut top, inits, mut ctls, limit0) = if h.batched {
